@@ -1268,4 +1268,28 @@ theorem coerced_eq_true (n : Int) (h0 : 0 ≤ n) (h1 : n < 256) :
 example : addrEqInt (mkLocalStation [5]) 5 = .ok true ∧ keyOfAddr (mkLocalStation [5]) ≠ keyOfInt 5 := by
   decide
 
+/-! ## `_tuple()` under the setting the stack reports (wave 6) -/
+
+/-- not route aware: equal addresses (with or without routes) have one `_tuple()` -/
+theorem tupleR_off (a b : RAddr) (h : addrEqR a b = true) : tupleR false a = tupleR false b := by
+  unfold addrEqR at h
+  simp only [Bool.and_eq_true] at h
+  have := (eq_iff_key a.base b.base).1 h.1
+  simp [tupleR, this]
+
+/-- route aware: equal addresses have one `_tuple()` when both carry a route or neither does
+    (a routed and an unrouted spelling are `==` but hash apart — outside the claim) -/
+theorem tupleR_on (a b : RAddr) (h : addrEqR a b = true)
+    (hr : a.route.isSome = b.route.isSome) : tupleR true a = tupleR true b := by
+  unfold addrEqR at h
+  simp only [Bool.and_eq_true] at h
+  have hk := (eq_iff_key a.base b.base).1 h.1
+  cases ha : a.route <;> cases hb : b.route <;> simp [ha, hb] at hr h ⊢
+  · simp [tupleR, hk, ha, hb]
+  · have := (eq_iff_key _ _).1 h.2
+    simp [tupleR, hk, ha, hb, this]
+
+example : tupleR true ⟨mkRemoteStation 1 [2], some (mkLocalStation [3])⟩ ≠
+    tupleR true ⟨mkRemoteStation 1 [2], none⟩ := by decide
+
 end BacVerif.C18
